@@ -318,6 +318,7 @@ class Interp:
         self.global_writes: List[tuple] = []
         self.site = ""
         self.halt_depth: Optional[int] = None
+        self.steps = 0
         self.retained_mode = 0
 
     # ------------------------------------------------------------------ choice
@@ -903,9 +904,10 @@ class Interp:
         return False
 
     # ------------------------------------------------------------------ calls
-    def call_function(self, info: FuncInfo, args: List[Any], kwargs: Dict[str, Any], closure: Optional[Env] = None):
+    def call_function(self, info: FuncInfo, args: List[Any], kwargs: Dict[str, Any], closure: Optional[Env] = None,
+                      nohook: bool = False):
         key = info.where
-        hook = self.hooks.get(key) or self.hooks.get(info.qualname)
+        hook = None if nohook else (self.hooks.get(key) or self.hooks.get(info.qualname))
         if hook is not None:
             r = hook(self, info, args, kwargs)
             if r is not NotImplemented:
@@ -1252,7 +1254,21 @@ class Interp:
             raise AbsRaise("AttributeError", self.site, f"class {obj.info.name} has no attribute {attr}")
         if isinstance(obj, SuperV):
             selfv = obj.selfv
-            cname = self._class_name_of(selfv)
+            if isinstance(selfv, Node):
+                cell = self.cell(selfv)
+                ks = sorted(self.kinds_of(cell))
+                targets = {}
+                for k in ks:
+                    mm = self.prog.find_method(k, attr, after=obj.after)
+                    targets.setdefault(id(mm), []).append(k)
+                if len(targets) > 1:
+                    keys = list(targets)
+                    i = self.choose(len(keys), f"super-dispatch({cell.cid}).{attr}",
+                                    ["|".join(x.replace("Expression", "") for x in targets[t]) for t in keys])
+                    self.refine_node(cell, frozenset(targets[keys[i]]))
+                cname = sorted(self.kinds_of(cell))[0]
+            else:
+                cname = self._class_name_of(selfv)
             m = self.prog.find_method(cname, attr, after=obj.after)
             if m is None:
                 raise AbsRaise("AttributeError", self.site, f"super has no {attr}")
@@ -1292,6 +1308,20 @@ class Interp:
             return v.cls.name
         raise Unsupported(f"class of {v!r}")
 
+    def dispatch_method(self, cell: Cell, attr: str) -> Optional[FuncInfo]:
+        """Resolve a method on a cell, forking over groups of kinds that resolve differently."""
+        kinds = self.kinds_of(cell)
+        groups: Dict[int, List[str]] = {}
+        for k in sorted(kinds):
+            m = self.prog.find_method(k, attr)
+            groups.setdefault(id(m), []).append(k)
+        if len(groups) > 1:
+            keys = list(groups)
+            i = self.choose(len(keys), f"dispatch({cell.cid}).{attr}",
+                            ["|".join(k.replace("Expression", "") for k in groups[key]) for key in keys])
+            self.refine_node(cell, frozenset(groups[keys[i]]))
+        return self.prog.find_method(sorted(self.kinds_of(cell))[0], attr)
+
     def _resolve_class_attr(self, cell: Cell, attr: str):
         """Resolve attr through the class hierarchy of the cell's kinds (forks if kinds disagree)."""
         kinds = self.kinds_of(cell)
@@ -1309,7 +1339,7 @@ class Interp:
                 key = ("a", id(ca[1])) if ca else ("none",)
                 groups.setdefault(key, []).append(k)
         if len(groups) > 1 and len(hooked) == 1 and not isinstance(next(iter(hooked)), tuple) \
-                and all(g[0] == "m" for g in groups):
+                and getattr(next(iter(hooked)), "total", False) and all(g[0] == "m" for g in groups):
             # every possible target is summarised by the same hook: virtual call, no need to split kinds
             m = self.prog.find_method(sorted(kinds)[0], attr)
             return ("method", m)
@@ -1411,6 +1441,9 @@ class Interp:
             self.exec_stmt(st, env)
 
     def exec_stmt(self, st: ast.stmt, env: Env) -> None:
+        self.steps += 1
+        if self.steps > self.config.get("max_steps", 60000):
+            raise BoundExceeded("step budget of one path")
         self.site = f"{env.func.where if env.func else env.module.relpath}:L{getattr(st, 'lineno', 0)}"
         if isinstance(st, ast.Expr):
             if isinstance(st.value, ast.Constant):
@@ -1923,10 +1956,10 @@ _DICT_METHODS = {n: _ListMethod("dict_" + n) for n in ("get", "keys", "values", 
 _orig_call_function = Interp.call_function
 
 
-def _call_function(self: Interp, info, args, kwargs, closure=None):
+def _call_function(self: Interp, info, args, kwargs, closure=None, nohook=False):
     if isinstance(info, _ListMethod):
         return _call_builtin_method(self, info, args, kwargs)
-    return _orig_call_function(self, info, args, kwargs, closure)
+    return _orig_call_function(self, info, args, kwargs, closure, nohook)
 
 
 Interp.call_function = _call_function  # type: ignore
@@ -2004,15 +2037,28 @@ class PathResult:
 
 
 def explore(prog: Program, body: Callable[[Interp], Any], config: Optional[dict] = None,
-            max_paths: int = 40000) -> List[PathResult]:
-    """Enumerate all paths of `body` (a function that drives one Interp)."""
+            max_paths: int = 40000, sink: Optional[Callable[["PathResult"], None]] = None) -> List[PathResult]:
+    """Enumerate all paths of `body` (a function that drives one Interp).  With `sink`, every result is
+    handed over and dropped (constant memory)."""
     results: List[PathResult] = []
+
+    class _Sink(list):
+        def append(self, x):
+            sink(x)
+    if sink is not None:
+        results = _Sink()
     prefix: List[int] = []
     n_paths = 0
+    import time as _time
+    t_end = _time.time() + float((config or {}).get("time_budget", 240))
     while True:
         n_paths += 1
-        if n_paths > max_paths:
-            raise AnalysisError(f"path budget exceeded ({max_paths})")
+        if n_paths > max_paths or _time.time() > t_end:
+            if (config or {}).get("budget_soft"):
+                it = Interp(prog, prefix, config)
+                results.append(PathResult(it, "bound", note=f"exploration budget exhausted after {n_paths - 1} paths"))
+                break
+            raise AnalysisError(f"exploration budget exceeded ({n_paths - 1} paths)")
         it = Interp(prog, prefix, config)
         try:
             v = body(it)
